@@ -474,6 +474,19 @@ impl ExactStats {
     }
 }
 
+/// Σ mult · Π columns, exactly.
+pub fn exact_sum_products_w(rows: &[(Vec<f64>, u64)], cols: &[usize]) -> Rat {
+    let mut acc = Rat::zero();
+    for (r, m) in rows {
+        let mut t = Rat::new(Big::from_u64(*m), Big::from_u64(1), 0);
+        for &c in cols {
+            t = t.mul(&Rat::from_f64(r[c]));
+        }
+        acc = acc.add(&t);
+    }
+    acc
+}
+
 /// Exact statistics of weighted pairs / xy pairs: generic exact sums over products.
 /// Returns Σ Π over the given columns as a Rat (each row multiplies the listed columns).
 pub fn exact_sum_products(rows: &[Vec<f64>], cols: &[usize]) -> Rat {
